@@ -90,7 +90,9 @@ def obligations(tier):
     q = tier == "quick"
     obls = []
     hs = (1, 2) if q else (1, 2, 3)
-    for u in UNITS:
+    units = UNITS if not q else ["partition2", "partition3", "punique2_first", "punique2_last", "punique3_last",
+                                 "window2", "window2_partial", "window3", "collect", "filter", "unique"]
+    for u in units:
         for h in hs:
             for fl in ((False, True) if u == "collect" else (False,)):
                 obls.append({"name": "step/%s/h=%d%s" % (u, h, "/flush" if fl else ""), "module": "harness.c05_step",
